@@ -440,8 +440,8 @@ def unpack_forced(sh: Shape, ty: int, body: bytes, measure: bool = False, scale:
     stage = ['unpack']
 
     def go() -> str:
-        # the real reader hands a memoryview of its receive buffer to Message.unpack (Connection.reader_async)
-        msg = Message.unpack(ty, memoryview(body), sh.neg)
+        # the real reader hands a memoryview of its receive buffer (a bytearray: writable, not hashable) to Message.unpack (Connection.reader_async)
+        msg = Message.unpack(ty, memoryview(bytearray(body)), sh.neg)
         return force(sh, ty, msg, body, stage)
 
     out = _guard(go, stage, measure, len(body), scale, sh=sh)
@@ -473,7 +473,7 @@ def accept_open(sh: Shape, body: bytes, multisession: bool = False) -> Outcome:
     stage = ['unpack']
 
     def go() -> str:
-        msg = Message.unpack(1, memoryview(body), sh.neg)
+        msg = Message.unpack(1, memoryview(bytearray(body)), sh.neg)
         neg = Negotiated.make_negotiated(n, Direction.IN)
         stage[0] = 'negotiate:sent'
         neg.sent(sessions.open_of(n))
@@ -493,7 +493,7 @@ def unpack_only(sh: Shape, ty: int, body: bytes, measure: bool = False) -> Outco
     stage = ['unpack']
 
     def go() -> str:
-        msg = Message.unpack(ty, memoryview(body), sh.neg)
+        msg = Message.unpack(ty, memoryview(bytearray(body)), sh.neg)
         if isinstance(msg, Update):
             stage[0] = 'force:data'
             msg.data
@@ -565,7 +565,7 @@ def read_message(sh: Shape, ty: int, body: bytes, via: str = 'read_message', mea
     header = MARKER + (19 + len(body)).to_bytes(2, 'big') + bytes([ty & 0xFF])
 
     async def reader_async() -> tuple:
-        return 19 + len(body), ty, memoryview(header), memoryview(body), None
+        return 19 + len(body), ty, memoryview(bytearray(header)), memoryview(bytearray(body)), None  # writable, as the receive buffer of the real reader is
 
     sh.proto.connection.reader_async = reader_async
     sh.processes._write_queue.clear()
